@@ -186,7 +186,7 @@ func checkC17(c *Ctx, r *Report) {
 
 // C18 — audio configuration codecs are exact over their domain (structural part).
 func checkC18(c *Ctx, r *Report) {
-	r.Explanation = "L-TRUNCCOPY: no slice that comes from a parameter (a decoder configuration) is copied into a fixed-size array without a test of its length; T-SPEC: aac.FrequencyTable equals the sampling-frequency-index table of ISO/IEC 14496-3; T-INV: aac.FrequencyTable and aac.ReverseFrequencies are mutual inverses (decided completely from the two literals); " +
+	r.Explanation = "L-SHORTREAD: the bit reader the ADTS and AudioSpecificConfig decoders use takes its bytes through binary.Read / io.ReadFull, never through a bare Read outside a loop (a byte delivered together with io.EOF is not lost); L-TRUNCCOPY: no slice that comes from a parameter (a decoder configuration) is copied into a fixed-size array without a test of its length; T-SPEC: aac.FrequencyTable equals the sampling-frequency-index table of ISO/IEC 14496-3; T-INV: aac.FrequencyTable and aac.ReverseFrequencies are mutual inverses (decided completely from the two literals); " +
 		"W-BITS: DecodeAudioSpecificConfig is executed on a symbolic bit stream under every configuration (object types, all 16 frequency indices incl. the 24-bit escape, SBR extension), " +
 		"AudioSpecificConfig.Encode is executed on the decoded value and compared bit by bit with what was read; " +
 		"(W-TRUNC) in mp4 and aac no value narrowed to 8/16 bits for one destination is widened again and used in place of the original (sampling frequencies above 65535); (DEP) SetAACDescriptor builds the esds DecSpecificInfo from the encoded configuration and the sample entry from the same configuration. " +
@@ -201,6 +201,11 @@ func checkC18(c *Ctx, r *Report) {
 	ruleADTSSequence(c, r)
 	ruleEscapeSites(c, r)
 	ruleASCRejections(c, r)
+	ruleShortRead(c, r, func(f *ssa.Function) bool {
+		return strings.HasPrefix(SSAFuncName(f), "bits.") || strings.HasPrefix(SSAFuncName(f), "aac.")
+	})
+	r.OK("L-SHORTREAD", "scope", "", "no direct Read on an io.Reader outside a loop in packages bits and aac (the bit reader takes its bytes through binary.Read / io.ReadFull) (expected count zero; fixture-backed)")
+	requireFixture(r, "L-SHORTREAD", "shortRead", func(fc *Ctx, s *Report) { ruleShortRead(fc, s, nil) })
 	ruleTruncatingCopy(c, r, func(f *ssa.Function) bool {
 		return strings.HasPrefix(SSAFuncName(f), "mp4.") || strings.HasPrefix(SSAFuncName(f), "aac.")
 	})
